@@ -46,16 +46,29 @@ type refSeq struct {
 	ents        []refEntry
 	undefined   bool
 	failedShift bool     // the last Remove was a shift (middle removal) that failed
-	ops         []string // notable operations since the last complete clear (signatures, messages)
+	ops         []string // the most recent notable operations since the last complete clear (messages)
+	kinds       []string // every kind of operation seen since the last complete clear (signatures)
 }
 
 func (r *refSeq) op(name string) {
+	known := false
+	for _, k := range r.kinds {
+		if k == name {
+			known = true
+		}
+	}
+	if !known {
+		r.kinds = append(r.kinds, name)
+	}
 	if n := len(r.ops); n > 0 && r.ops[n-1] == name {
 		return
 	}
-	if len(r.ops) < 12 {
-		r.ops = append(r.ops, name)
+	if len(r.ops) >= 12 {
+		// the story is for reading: keep the most recent operations
+		copy(r.ops, r.ops[1:])
+		r.ops = r.ops[:len(r.ops)-1]
 	}
+	r.ops = append(r.ops, name)
 }
 
 // allEvicted: every position in pos is held by an entry that a sliding-window cache has evicted.
@@ -78,7 +91,7 @@ func (r *refSeq) allEvicted(pos []int) bool {
 }
 
 func (r *refSeq) has(name string) bool {
-	for _, o := range r.ops {
+	for _, o := range r.kinds {
 		if o == name {
 			return true
 		}
@@ -181,7 +194,7 @@ func (c *recCache) CopyPrefix(srcSeq, dstSeq int, n int32) {
 	src, dst := c.seq(srcSeq), c.seq(dstSeq)
 	dst.ents = dst.ents[:0]
 	dst.undefined = src.undefined
-	dst.ops = nil
+	dst.ops, dst.kinds = nil, nil
 	for _, e := range src.ents {
 		if e.pos < n {
 			dst.ents = append(dst.ents, e)
@@ -244,7 +257,7 @@ func (c *recCache) Remove(seq int, beginIndex, endIndex int32) error {
 	if full {
 		r.ents = r.ents[:0]
 		r.undefined = false
-		r.ops = nil
+		r.ops, r.kinds = nil, nil
 		return nil
 	}
 	if r.undefined {
